@@ -54,9 +54,6 @@ structure Cfg where
   maxBody  : Nat                -- MaxHTTPBodySize, 0 = unlimited
   urlOk    : Bytes → Bool       -- Processor.OnURL succeeds (url.ParseRequestURI), parameter
   protoOk  : Bytes → Bool       -- http.ParseHTTPVersion succeeds, parameter
-  head     : Nat → Bool := fun _ => false
-                                -- client: the k-th response header section read on this connection answers a HEAD
-                                -- request (`ClientProcessor.ResponseToHead`: known to `ClientConn.Do`, not to the bytes)
 
 structure P where
   st : PState
@@ -73,8 +70,7 @@ structure P where
   chunkSize : Int := 0
   chunked : Bool := false
   chunkExt : Bool := false      -- the ';' of a chunk extension has been seen on the current chunk-size line
-  noBody : Bool := false        -- response to HEAD, 1xx/204/304 response: ends with its header section (RFC 7230 §3.3.3 rule 1)
-  respNo : Nat := 0             -- ghost: number of response header sections read (index into `Cfg.head`)
+  noBody : Bool := false        -- 1xx/204/304 response: ends with its header section (RFC 7230 §3.3.3 rule 1)
   headerExists : Bool := false
   bodyHeld : Nat := 0           -- BodyReader.left of the message under construction
   deriving Repr
@@ -202,14 +198,6 @@ def bodilessStatus (code : Nat) : Bool := code / 100 == 1 || code == 204 || code
 /-- after the framing fields have been validated: a bodiless response has no body whatever they say -/
 def noBodyOverride (p : P) : P := if p.noBody then { p with chunked := false, contentLength := 0 } else p
 
-/-- the response to a HEAD request has no body either; its announced length is still reported. The parser asks the
-    processor exactly once per response header section. -/
-def headOverride (g : Cfg) (p : P) : P :=
-  { (if g.head p.respNo then { p with noBody := true, chunked := false } else p) with respNo := p.respNo + 1 }
-
-/-- the client-only part of the framing decision, after the framing fields have been validated -/
-def framingOverride (g : Cfg) (p : P) : P := if g.isClient then headOverride g (noBodyOverride p) else p
-
 def handleMessage (g : Cfg) (p : P) : P :=
   { p with chunked := false, noBody := false, te := [], tr := [], cl := [], trailer := [], bodyHeld := 0,
            st := if g.isClient then .clientProtoBefore else .methodBefore }
@@ -298,7 +286,7 @@ def byteStep (g : Cfg) (p : P) (tok : Bytes) (c : UInt8) : Out P Ev :=
       match endOfHeaders p with
       | .error e => er e
       | .ok p0 =>
-        let p1 := framingOverride g p0
+        let p1 := noBodyOverride p0
         match addTrailerKeys p1 with
         | .error e => er e [.contentLength p1.contentLength]
         | .ok p2 => ok { p2 with st := .headerOverLF } .next [.contentLength p1.contentLength]
@@ -328,7 +316,7 @@ def byteStep (g : Cfg) (p : P) (tok : Bytes) (c : UInt8) : Out P Ev :=
     if c == LF then
       let p := { p with headerExists := false }
       if p.chunked then ok { p with st := .chunkSizeBefore } .next
-      else if p.contentLength > 0 && !p.noBody then ok { p with st := .bodyContentLength } .next
+      else if p.contentLength > 0 then ok { p with st := .bodyContentLength } .next
       else ok (handleMessage g p) .next [.complete]
     else er .lfExpected
   | .bodyContentLength => er .unreachable
